@@ -12,6 +12,9 @@ pub struct BytesMut { inner: Vec<u8> }
 impl View for BytesMut { type V = Seq<u8>; uninterp spec fn view(&self) -> Seq<u8>; }
 
 impl Bytes {
+  // R6: Bytes::from_static(&[b]) / Bytes::copy_from_slice(&[b]) with a one-element array literal
+  #[verifier::external_body]
+  pub fn verif_from_array1(a: [u8; 1]) -> (r: Bytes) ensures r@ == a@ { unimplemented!() }
   #[verifier::external_body]
   pub fn new() -> (r: Bytes) ensures r@ =~= Seq::<u8>::empty() { unimplemented!() }
   #[verifier::external_body]
@@ -130,6 +133,12 @@ impl BytesMut {
   pub fn put(&mut self, src: BytesMut) ensures final(self)@ == old(self)@ + src@ { unimplemented!() }
   #[verifier::external_body]
   pub fn as_slice(&self) -> (r: &[u8]) ensures r@ == self@ { unimplemented!() }
+  // R6: `&buf[..n]`
+  #[verifier::external_body]
+  pub fn verif_prefix(&self, n: usize) -> (r: &[u8])
+    requires n <= self@.len()
+    ensures r@ == self@.subrange(0, n as int)
+  { unimplemented!() }
 }
 
 impl vstd::std_specs::core::IndexSpecImpl<usize> for BytesMut {
